@@ -441,7 +441,9 @@ example : parseIntCxx (textOf cliOptions [⟨"target-dimension", 1, "0"⟩] "tar
   decide +kernel
 example : textOf cliOptions [⟨"method", 1, "foo"⟩] "method" ∉
     ((nameMaps.find? (·.name == "DIMENSION_REDUCTION_METHODS")).map (·.entries.map (·.1))).getD [] := by decide +kernel
-example : matrixOfRows (readRows parseNum ',' "1,2\n3\n".toList) = .error (.ragged 1) := by decide +kernel
+example : (match matrixOfRows (readRows parseNum ',' "1,2\n3\n".toList) with
+    | .error (.ragged 1) => true
+    | _ => false) = true := by decide +kernel
 
 /-! ## Part 5 — projection files and --precompute -/
 
@@ -457,9 +459,7 @@ theorem projection_files :
       [("projection.proj_mat", specProjCond, .value "output-projection-matrix-file" .str,
           some (.index0 (.value "delimiter" .str))),
        ("projection.mean_vec", specProjCond, .value "output-projection-mean-file" .str, none)] ∧
-    (∀ s ∈ cliSteps, match s with
-        | .transpose _ t => t = "input" ∨ t = "output.embedding"
-        | _ => True) ∧
+    (∀ s ∈ cliSteps, transposeTargetOk s = true) ∧
     (∀ (o : Opts) (rt : Runtime), evalCond cliOptions nameMaps rt o specProjCond =
         some (decide (0 < countOf o "output-projection-matrix-file") &&
               decide (0 < countOf o "output-projection-mean-file") && rt.hasProjection)) := by
@@ -484,7 +484,7 @@ theorem projection_files :
       cases hA : decide (0 < countOf o "output-projection-matrix-file") <;>
         cases hB : decide (0 < countOf o "output-projection-mean-file") <;>
         cases hP : rt.hasProjection <;>
-        simp [hA, hB, hP, Val.truthy, litVal, eval] at *
+        simp [hA, hB, hP, Val.truthy, litVal] at *
 
 /-- `precompute_same_params`: no `tapkee::kw = expr` row mentions --precompute, both branches of `if (opt.count(
     "precompute"))` pass the SAME parameter set and the same data to the library, and therefore the parameter set is the
@@ -493,9 +493,7 @@ theorem projection_files :
     Manifold Sculpting, which calls the distance callback although it declares `RequiresFeatures`: F-MS-TRAITS.) -/
 theorem precompute_same_params :
     (∀ w ∈ cliWiring, "precompute" ∉ w.expr.opts) ∧
-    (∀ s ∈ cliSteps, match s with
-        | .embed _ p _ _ _ _ => p = "parameters"
-        | _ => True) ∧
+    (∀ s ∈ cliSteps, embedParamsOk s = true) ∧
     (∀ o o' : Opts, (∀ n, n ≠ "precompute" → AgreeOn cliOptions o o' n) → cliParams o = cliParams o') := by
   have h1 : ∀ w ∈ cliWiring, "precompute" ∉ w.expr.opts := by decide +kernel
   refine ⟨h1, by decide +kernel, ?_⟩
